@@ -58,6 +58,9 @@ func runC01(c *eng.Ctx) {
 	c.Rule("R01.11", "K9")
 	ruleNilMarker(c)
 	c.Floor(3)
+	// ---- R14.6 the segment-exists error reaches the roll's identity test unwrapped
+	n := ruleSentinelIdentity(c, "R14.6", []string{cl + "(*commitLog).checkAndPerformSplit"}, "a roll that finds the next segment file already present fails the append instead of being skipped")
+	c.Check(n >= 1, "roll tells an existing segment apart", "", "identity comparison with ErrSegmentExists found", "checkAndPerformSplit no longer recognises ErrSegmentExists")
 }
 
 func ruleOffsetIdentity(c *eng.Ctx) {
